@@ -660,6 +660,59 @@ def _save(kind, fi):
         del GF.open
 
 
+BIG_SEEDS = [0, 1, -1, 2 ** 31, 2 ** 32, 2 ** 32 + 5, 2 ** 64 + 1, 12345678901234567890, -2 ** 40]
+
+
+def _seeds(ci, si):
+    """--seed S means random.seed(S) for every integer S, and the formula-level randomness starts from that seed whatever
+    the graph arguments drew while the command line was parsed (real Mersenne Twister, no stub)"""
+    import random
+    from cnfgen.families.randomformulas import RandomKCNF
+    from cnfgen.families.randomkxor import RandomKXOR
+    from cnfgen.families.pigeonhole import PigeonholePrinciple
+    from cnfgen.families.coloring import GraphColoringFormula
+    from cnfgen.transformations.shuffle import Shuffle
+    from cnfgen.transformations.substitutions import VariableCompression
+    S = BIG_SEEDS[si]
+    state = random.getstate()
+    try:
+        if ci == 0:
+            return same(run_tool('cnfgen', ['-q', '--seed', S, 'randkcnf', 3, 6, 5]), RandomKCNF(3, 6, 5, seed=S))
+        if ci == 1:
+            return same(run_tool('cnfgen', ['-q', '--seed', S, 'randkxor', 2, 5, 3]), RandomKXOR(2, 5, 3, seed=S))
+        if ci == 2:
+            F = run_tool('cnfgen', ['-q', '--seed', S, 'php', 3, 2, '-T', 'shuffle'])
+            random.seed(S)
+            return same(F, Shuffle(PigeonholePrinciple(3, 2)))
+        fs = _FS()
+        GR.open = fs.open
+        GF.open = fs.open
+        try:
+            if ci == 3:
+                F = run_tool('cnfgen', ['-q', '--seed', S, 'kcolor', 3, 'gnp', 5, '.5', 'save', 'drawn.gml', '-T', 'shuffle'])
+                G = g('simple', ['drawn.gml'])
+                random.seed(S)
+                return same(F, Shuffle(GraphColoringFormula(G, 3)))
+            F = run_tool('cnfgen', ['-q', '--seed', S, 'kcolor', 2, 'gnm', 4, 3, 'addedges', 1, 'save', 'drawn.kthlist', '-T', 'xorcomp', 6, 2])
+            G = g('simple', ['drawn.kthlist'])
+            random.seed(S)
+            B = GR.bipartite_random_left_regular(8, 6, 2)
+            return same(F, VariableCompression(GraphColoringFormula(G, 2), B, 'xor'))
+        finally:
+            del GR.open
+            del GF.open
+    finally:
+        random.setstate(state)
+
+
+def h_e_seeds(ci: int, si: int) -> bool:
+    """
+    pre: 0 <= ci <= 4 and 0 <= si <= 8
+    post: _
+    """
+    return untraced(_seeds, pick(ci, 0, 4), pick(si, 0, 8))
+
+
 def h_e_save(kind: int, fi: int) -> bool:
     """
     pre: 0 <= kind <= 2 and 0 <= fi <= 3
